@@ -370,7 +370,7 @@ def run_inplace(W, cfg):
 
 # ------------------------------------------------------------------ histories
 def cfg_hist(tier, seed):
-    out = [{'case': c} for c in ('plane-reuse', 'interleaved-dft2', 'fit-tilt-twice', 'fit-tilt-twice-segmented', 'spectrum-reuse', 'spectrum-edit-sample', 'operand-attributes', 'multiply-rescale-multiply', 'fit-tilt-copy-segmented', 'wavefront-fanout', 'offset-dft2-twice', 'scratch-reuse')]
+    out = [{'case': c} for c in ('plane-reuse', 'interleaved-dft2', 'fit-tilt-twice', 'fit-tilt-twice-segmented', 'spectrum-reuse', 'spectrum-edit-sample', 'operand-attributes', 'multiply-rescale-multiply', 'fit-tilt-copy-segmented', 'fit-tilt-copy-degenerate', 'views-keep-fields', 'wavefront-fanout', 'offset-dft2-twice', 'scratch-reuse')]
     return out, len(out), True
 
 
@@ -492,6 +492,33 @@ def run_hist(W, cfg):
             W.ob_true(f'call {k}: the copy carries one Tilt per segment', len(q.tilt) == 2)
             W.ob(f'call {k}: the caller\'s OPD is untouched', p.opd, O0)
             W.ob_true(f'call {k}: a copy is returned', not W.same(q, p))
+    elif case == 'fit-tilt-copy-degenerate':
+        # nothing to fit (scalar OPD, or no pixel scale): fit_tilt() still hands back a plane of its own, not the caller's
+        a = W.reals('a', (2, 2), nz=True)
+        for nm_, p in (('scalar OPD', lt.Pupil(amplitude=a, pixelscale=1.0, focal_length=1.0)), ('scalar amplitude and OPD', lt.Pupil(pixelscale=1.0, focal_length=1.0))):
+            q = p.fit_tilt()
+            W.ob_true(f'{nm_}: fit_tilt() returns a copy', not W.same(q, p))
+            q.opd = W.reals('o', (2, 2))
+            q.tilt.append(lt.Tilt(x=0, y=0))
+            W.ob_true(f'{nm_}: editing the returned plane leaves the caller\'s plane alone', len(p.tilt) == 0 and getattr(p.opd, 'shape', ()) == ())
+            W.ob_true(f'{nm_}: fit_tilt(inplace=True) returns the plane itself', W.same(p.fit_tilt(inplace=True), p))
+    elif case == 'views-keep-fields':
+        # reading a wavefront's views (intensity, field, insert) leaves its list of fields, and their tilts, as they were
+        w = lt.Wavefront.empty(wavelength=W.real('lam', pos=True), shape=(2, 3))
+        t1, t2 = lt.Tilt(x=W.real('x1'), y=W.real('y1')), lt.Tilt(x=W.real('x2'), y=W.real('y2'))
+        f1 = lt.field.Field(data=W.complexes('z1', (2, 2)), offset=[0, 0], tilt=[t1])
+        f2 = lt.field.Field(data=W.complexes('z2', (2, 2)), offset=[0, 1], tilt=[t2])
+        f3 = lt.field.Field(data=W.complexes('z3', (1, 1)), offset=[-1, -1], tilt=[t1, t2])
+        w.data.extend([f1, f2, f3])
+        first = w.intensity
+        for what in ('intensity', 'field', 'insert'):
+            if what == 'insert':
+                w.insert(W.reals('out', (2, 3)), weight=W.real('wt'))
+            else:
+                getattr(w, what)
+            W.ob_true(f'after reading {what}: the same field objects in the same order', len(w.data) == 3 and w.data[0] is f1 and w.data[1] is f2 and w.data[2] is f3)
+            W.ob_true(f'after reading {what}: every field keeps its tilt list', f1.tilt == [t1] and f2.tilt == [t2] and f3.tilt == [t1, t2])
+        W.ob('intensity read again = intensity read first', w.intensity, first)
     elif case == 'operand-attributes':
         # the scalar attributes of both operands survive a product and a propagation, and a shared wavefront multiplies the
         # next plane as it would have before
